@@ -536,6 +536,15 @@ func checkC09(r *evid.Run) {
 			s3.Pre = absFS{Dirs: [][]string{{"t"}}}
 			s3.Hist = append([]fsCall{}, s.Hist...)
 			s3.Hist[len(s3.Hist)-1].Dry = false
+			// ... and a tree the dry run accepts is not rejected by the real run because of its names
+			for _, massive := range []bool{false, true} {
+				if o, err := runFsCall(pool, &s3, c, massive, false); err == nil && o.rp.Class == "err" && strings.Contains(o.rp.Err, "invalid") {
+					r.Count("real_calls", 1)
+					r.Mismatch("dryrun:accepted-but-real-mkdir-rejects-the-names", fmt.Sprintf("%s: the dry run reports %v, the real mkdir (massive=%v, fresh target) returns %q", callString(s, c), s.Res.Counts, massive, o.rp.Err),
+						fsReplayRec{Items: s.Items, Conc: c.Name, Call: call})
+					break
+				}
+			}
 			if got, ok := realCounts(pool, &s3, c); ok {
 				r.Count("real_calls", 1)
 				for i, cnt := range s.Res.Counts {
